@@ -17,7 +17,8 @@ package verifharness
 //   reg <addrOK> <addr> <nc> <chain>*nc <na> <oaddr>*na      -> ok G:<registry in store order> | rej
 //   q <chain> <addr> <oaddr>                                 -> auth=<0|1> other=<f:hex|none> tele=<f:hex|none>
 //   upd <raw> <canon> <chain> <hdrOK> <newTss|none>          -> ok <store diff> | rej
-//   recv <raw> <canon> <src> <dst> <seq> <hasData> <proofOK> -> ok <store diff> rl=<ack relayer field> | rej
+//   recv <raw> <canon> <src> <dst> <seq> <kind> <proofOK> <cb> -> ok <store diff> rl=<ack relayer field> cls=<ok|code|evm|nodst> | rej
+//        kind = data kind of the packet (c06Packet), cb = ok|code|evm|? outcome of the receive callback (probed)
 //   ack <raw> <canon> <src> <dst> <seq> <hasData> <genuine> <proofOK> <ackRelayer> <ackDecodes> <evmOK> -> ok <store diff> | rej
 //   recv / ack may end with  pf=<hex>  : the bytes put into ProofCommitment / ProofAcked when the gating chain is not S
 //                                        (TSS client or no client); default is the single byte 01
@@ -28,6 +29,7 @@ import (
 	"crypto/sha256"
 	"encoding/base64"
 	"fmt"
+	"math/big"
 	"os"
 	"sort"
 	"strconv"
@@ -36,9 +38,12 @@ import (
 
 	"github.com/cosmos/cosmos-sdk/simapp/helpers"
 	sdk "github.com/cosmos/cosmos-sdk/types"
+	"github.com/ethereum/go-ethereum/common"
 	abci "github.com/tendermint/tendermint/abci/types"
 	"github.com/tharsis/ethermint/crypto/ethsecp256k1"
 
+	endpointcontract "github.com/teleport-network/teleport/syscontracts/xibc_endpoint"
+	packetcontract "github.com/teleport-network/teleport/syscontracts/xibc_packet"
 	xibctmtypes "github.com/teleport-network/teleport/x/xibc/clients/light-clients/tendermint/types"
 	tsstypes "github.com/teleport-network/teleport/x/xibc/clients/tss-client/types"
 	xibcclient "github.com/teleport-network/teleport/x/xibc/core/client"
@@ -97,18 +102,42 @@ type c06World struct {
 
 // ---- canonical packets / acks --------------------------------------------------------------------
 
-// the canonical packet for a triple; hasData=false gives a packet failing ValidateBasic.
-func c06Packet(src, dst string, seq uint64, hasData bool) *packettypes.Packet {
-	var cd []byte
-	if hasData {
+// data kinds of the canonical packet for a triple (what the receive callback will do with it is an external,
+// EVM-level fact; the harness probes it with the real CallPacket before recording the op):
+//
+//	0 no data (fails ValidateBasic)                       1 call data for an address without code   (code 0)
+//	2 call data that is not ABI-encoded CallData (revert)  3 transfer data that is not TransferData   (code 2)
+//	4 call data that makes `execute` call endpoint.crossChainCall towards a chain without client: the
+//	  post-transaction hook (keeper SendPacket) fails, so CallPacket fails
+const c06Kinds = 5
+
+func c06Packet(src, dst string, seq uint64, kind int) *packettypes.Packet {
+	var cd, td []byte
+	switch kind {
+	case 1:
 		cd, _ = (&packettypes.CallData{ContractAddress: "0x1111111111111111111111111111111111111111", CallData: []byte{1, 2, byte(seq)}}).ABIPack()
+	case 2:
+		cd = []byte{0xde, 0xad, 0xbe, 0xef, byte(seq)}
+	case 3:
+		td = []byte{1, 2, 3, byte(seq)}
+	case 4:
+		inner, err := endpointcontract.EndpointContract.ABI.Pack("crossChainCall", packettypes.CrossChainData{DstChain: "no-such-chain", TokenAddress: common.Address{}, Receiver: "",
+			Amount: big.NewInt(0), ContractAddress: "0x1111111111111111111111111111111111111111", CallData: []byte{1, byte(seq)}, CallbackAddress: common.Address{}, FeeOption: 0},
+			packettypes.Fee{TokenAddress: common.Address{}, Amount: big.NewInt(0)})
+		if err != nil {
+			panic(err)
+		}
+		cd, _ = (&packettypes.CallData{ContractAddress: strings.ToLower(endpointcontract.EndpointContractAddress.Hex()), CallData: inner}).ABIPack()
 	}
 	cb := c06ZeroHex
 	if seq%4 == 3 {
 		cb = "" // OnAcknowledgePacket reverts on an unparsable callback address
 	}
-	return packettypes.NewPacket(src, dst, seq, c06Sender, nil, cd, cb, 0)
+	return packettypes.NewPacket(src, dst, seq, c06Sender, td, cd, cb, 0)
 }
+
+// data kind of the packet S committed for sequence seq (S -> T pool)
+func c06PoolKind(seq uint64) int { return []int{2, 1, 1, 1, 1, 3, 4}[seq%7] }
 
 // the EVM callbacks of an acknowledgement succeed for the canonical packet iff the ack code is 0 and the
 // callback address parses (established by experiment on the real byte code; re-checked by every run:
@@ -158,7 +187,7 @@ func newC06World(t *testing.T) *c06World {
 	// S commits the pool: packets S->T and acks of packets T->S
 	sctx := w.S.GetContext()
 	for seq := uint64(1); seq <= c06Pool; seq++ {
-		cm, err := packettypes.CommitPacket(c06Packet(w.S.ChainID, w.T.ChainID, seq, true))
+		cm, err := packettypes.CommitPacket(c06Packet(w.S.ChainID, w.T.ChainID, seq, c06PoolKind(seq)))
 		if err != nil {
 			t.Fatal(err)
 		}
@@ -475,8 +504,53 @@ func (w *c06World) apply(r *Rec, op string) (string, string) {
 		}
 		op = strings.Join(f, " ")
 	}
+	if f[0] == "recv" { // resolve the external outcome of the receive callback before the op is recorded
+		pfField := ""
+		if l := f[len(f)-1]; strings.HasPrefix(l, "pf=") {
+			pfField, f = l, f[:len(f)-1]
+		}
+		if len(f) == 8 { // older op files: no callback field
+			f = append(f, "?")
+		}
+		if len(f) == 9 && f[8] == "?" {
+			f[8] = "ok"
+			dk, _ := strconv.Atoi(f[6])
+			seq, _ := strconv.ParseUint(f[5], 10, 64)
+			if dst := string(unhx(f[4])); dst == w.T.ChainID && dk > 0 && dk < c06Kinds {
+				f[8] = w.probeCallback(c06Packet(string(unhx(f[3])), dst, seq, dk))
+			}
+		}
+		if pfField != "" {
+			f = append(f, pfField)
+		}
+		op = strings.Join(f, " ")
+	}
 	w.hist = append(w.hist, op)
 	return op, w.apply1(r, f)
+}
+
+// probeCallback runs PacketKeeper.CallPacket(onRecvPacket) alone on a throw-away cache context: what the
+// contracts do with the packet is an external parameter of the C06 model ("ok" code 0, "code" code != 0, "evm" failed)
+func (w *c06World) probeCallback(pk *packettypes.Packet) string {
+	cctx, _ := w.T.GetContext().CacheContext()
+	out := "evm"
+	safely(func() {
+		res, err := w.T.App.XIBCKeeper.PacketKeeper.CallPacket(cctx, "onRecvPacket", *pk)
+		if err != nil {
+			return
+		}
+		var result packettypes.Result
+		if packetcontract.PacketContract.ABI.UnpackIntoInterface(&result, "onRecvPacket", res.Ret) != nil {
+			out = "undecodable-result"
+			return
+		}
+		if result.Code == 0 {
+			out = "ok"
+		} else {
+			out = "code"
+		}
+	})
+	return out
 }
 
 func (w *c06World) apply1(r *Rec, f []string) string {
@@ -499,7 +573,7 @@ func (w *c06World) apply1(r *Rec, f []string) string {
 		return "ok"
 	case "mkcommit":
 		seq, _ := strconv.ParseUint(f[3], 10, 64)
-		cm, err := packettypes.CommitPacket(c06Packet(s(1), s(2), seq, true))
+		cm, err := packettypes.CommitPacket(c06Packet(s(1), s(2), seq, 1))
 		if err != nil {
 			return "err"
 		}
@@ -536,6 +610,10 @@ func (w *c06World) apply1(r *Rec, f []string) string {
 		w.coord.CommitBlock(T)
 		if _, again := w.lastReg[addr]; again {
 			r.Count("reg.reregistration")
+		}
+		if old, again := w.lastReg[addr]; again && len(old.chains) == len(mirror.chains) &&
+			strings.Join(old.addrs, "\x00") == strings.Join(mirror.addrs, "\x00") && strings.Join(old.chains, "\x00") != strings.Join(mirror.chains, "\x00") {
+			r.Count("reg.reregistration.same-addresses-other-chains")
 		}
 		w.lastReg[addr] = mirror
 		r.Count("reg.accepted")
@@ -648,10 +726,19 @@ func (w *c06World) applyMsg(r *Rec, f []string) string {
 		src, dst = s(3), s(4)
 		seq, _ = strconv.ParseUint(f[5], 10, 64)
 		chain = src
-		pk := c06Packet(src, dst, seq, f[6] == "1")
+		dk, derr := strconv.Atoi(f[6])
+		if derr != nil || dk < 0 || dk >= c06Kinds || len(f) != 9 {
+			return "bad-op"
+		}
+		pk := c06Packet(src, dst, seq, dk)
 		bz, err := pk.ABIPack()
 		if err != nil {
 			return "bad-op"
+		}
+		if dst == T.ChainID && dk != 0 {
+			if got := w.probeCallback(pk); got != f[8] {
+				return "flag-mismatch cb " + got
+			}
 		}
 		proof := []byte{1}
 		if hasPf {
@@ -662,7 +749,7 @@ func (w *c06World) applyMsg(r *Rec, f []string) string {
 			ph = w.proofH
 			gen, have := w.proofPkt[seq]
 			if f[7] == "1" {
-				if !have || dst != T.ChainID || f[6] != "1" {
+				if !have || dst != T.ChainID || dk != c06PoolKind(seq) {
 					return "flag-mismatch proofOK"
 				}
 				proof = gen
@@ -676,7 +763,7 @@ func (w *c06World) applyMsg(r *Rec, f []string) string {
 				default:
 					proof = []byte{}
 				}
-				if dst != T.ChainID || f[6] != "1" {
+				if dst != T.ChainID || dk != c06PoolKind(seq) {
 					proof = gen // genuine proof, but of a different packet: still no proof of this one
 				}
 			}
@@ -686,7 +773,7 @@ func (w *c06World) applyMsg(r *Rec, f []string) string {
 		src, dst = s(3), s(4)
 		seq, _ = strconv.ParseUint(f[5], 10, 64)
 		chain = dst
-		pk := c06Packet(src, dst, seq, f[6] == "1")
+		pk := c06Packet(src, dst, seq, map[bool]int{true: 1, false: 0}[f[6] == "1"])
 		if f[7] != "1" {
 			pk.Sender = "0x3333333333333333333333333333333333333333" // not the committed packet
 		}
@@ -845,7 +932,17 @@ func (w *c06World) applyMsg(r *Rec, f []string) string {
 			if err := ack.ABIDecode(ackBz); err != nil {
 				w.find(r, "C06/ack-undecodable", "written acknowledgement does not decode", err.Error(), "decodable")
 			}
-			out += " rl=" + hxs(ack.Relayer)
+			cls := "code"
+			switch {
+			case ack.Code == 0:
+				cls = "ok"
+			case ack.Code == 1 && ack.Message == "receive packet callback failed":
+				cls = "evm"
+			case ack.Code == 1 && ack.Message == "dstChain not found":
+				cls = "nodst"
+			}
+			out += " rl=" + hxs(ack.Relayer) + " cls=" + cls
+			r.Count("recv.accepted.class." + cls)
 			want, found := lr.addrFor(src)
 			if lr.multichainUnsorted() {
 				r.Count("recv.accepted.multichain-unsorted")
@@ -855,7 +952,7 @@ func (w *c06World) applyMsg(r *Rec, f []string) string {
 			}
 			if !found || ack.Relayer != want {
 				w.find(r, "C06/ack-relayer-field-not-the-registered-address", "fee recipient in the written acknowledgement is not the address registered by the submitting relayer for the source chain",
-					"relayer field "+strconv.Quote(ack.Relayer), "registered "+strconv.Quote(want))
+					"relayer field "+strconv.Quote(ack.Relayer)+" in the acknowledgement of class "+cls, "registered "+strconv.Quote(want))
 			}
 			stored, ok2 := T.App.XIBCKeeper.PacketKeeper.GetPacketAcknowledgement(T.GetContext(), src, dst, seq)
 			hsh := sha256.Sum256(ackBz)
@@ -863,6 +960,10 @@ func (w *c06World) applyMsg(r *Rec, f []string) string {
 				w.find(r, "C06/stored-ack-is-not-the-emitted-ack", "stored ack commitment differs from the hash of the emitted acknowledgement", "differs", "equal")
 			}
 			r.Count("recv.accepted.ack-written")
+		} else if dst == T.ChainID {
+			w.find(r, "C06/accepted-receive-without-acknowledgement", "a receive for this chain was accepted but no acknowledgement was written", "no EventWriteAck", "acknowledgement with the registered fee recipient")
+		} else {
+			r.Count("recv.accepted.relayed")
 		}
 	}
 	return out
